@@ -40,6 +40,7 @@ type Violation struct {
 	Model  map[string]uint64 `json:"model"`
 	Where  string            `json:"where"`
 	PathNo int               `json:"path"`
+	Trace  []string          `json:"trace,omitempty"` // interleaving mode: the schedule, step by step
 }
 
 type Config struct {
@@ -57,6 +58,7 @@ type Config struct {
 	Cuts        []CutSpec
 	AssertSolver string // one-shot back end for assertion queries (e.g. cvc5-int for checksum arithmetic)
 	AssertTimeoutMs int
+	BMCTimeoutMs    int
 	NoLemmas bool // do not add proven assertions to the path condition
 }
 
@@ -108,6 +110,7 @@ type X struct {
 	locByID   []Loc
 	chanByID  []*ChanObj
 	bmc       *bmcCtx
+	realSleep bool // the obligation is about pkg/sleep itself: do not stub Sleeper.Fetch
 	clockMax  *T
 	clockFrozen bool
 	AuxQueries, AuxSat, AuxUnsat, AuxUnk int
@@ -377,6 +380,7 @@ func (x *X) gopanic(msg string) {
 
 // Run explores all paths of the harness function.
 func (x *X) Run(fn *ssa.Function) {
+	x.realSleep = fn.Pkg != nil && strings.HasSuffix(fn.Pkg.Pkg.Path(), "/pkg/sleep")
 	x.St = Stats{PathKinds: map[string]int{}, Funcs: map[string]bool{}, Reached: map[string]bool{},
 		Notes: map[string]int{}, KnownHit: map[string]string{}, StubsUsed: map[string]int{}}
 	if x.Cfg.MaxConcVals == 0 {
@@ -438,6 +442,12 @@ func (x *X) runPathEntry(entry func()) (kind string) {
 				panic(r)
 			}
 			kind = pe.kind
+			if x.bmc != nil && x.bmc.active && (pe.kind == "panic" || pe.kind == "unwind") {
+				// interleaving mode: whether this state is reachable is decided by the model checker
+				x.bmcErrEdge(pe.kind, pe.msg)
+				kind = "err-edge"
+				return
+			}
 			switch pe.kind {
 			case "panic":
 				if !x.Cfg.AllowPanic {
@@ -598,6 +608,14 @@ func strIsConst(s String) (string, bool) {
 // call executes fn with args (receiver first for methods).
 func (x *X) call(fn *ssa.Function, args []Value, bind []Value) Value {
 	if fn.Blocks == nil {
+		// a body-less function of the module (runtime linkname) can be given a model by the
+		// harness: function vh_<name> of the same package
+		if fn.Pkg != nil && x.E.InModule(fn.Pkg.Pkg.Path()) {
+			if m := fn.Pkg.Func("vh_" + fn.Name()); m != nil && m.Blocks != nil {
+				x.St.StubsUsed[fn.String()+" -> harness model vh_"+fn.Name()]++
+				return x.call(m, args, nil)
+			}
+		}
 		x.unsupported("call to function without body: " + fn.String())
 	}
 	x.depth++
@@ -1591,7 +1609,7 @@ func (x *X) callFn(fn *ssa.Function, args []Value, bind []Value, cc *ssa.CallCom
 	if x.bmc != nil && strings.HasPrefix(name, "sync/atomic.") {
 		x.bmcAtVisible(name)
 	}
-	if h, ok := intrinsics[name]; ok {
+	if h, ok := intrinsics[name]; ok && !(x.realSleep && strings.Contains(name, "/pkg/sleep.")) {
 		x.St.StubsUsed[name]++
 		return h(x, fn, args)
 	}
@@ -1649,6 +1667,9 @@ func (x *X) builtin(b *ssa.Builtin, args []Value, cc *ssa.CallCommon) Value {
 		case ChanRef:
 			if v.C == nil {
 				return x.c64(0)
+			}
+			if v.C.Count != nil {
+				return x.B.ZExt(v.C.Count, 64)
 			}
 			return x.c64(uint64(len(v.C.Buf)))
 		case Pointer: // *array
